@@ -111,4 +111,26 @@ theorem failed_call_unobservable (s s' : St) (op : Op) (r : Dom.Res)
       | (simp only [Prod.mk.injEq] at h; obtain ⟨rfl, _⟩ := h; exact ⟨rfl, rfl⟩)
       | (simp at h; done))
 
+-- handle numbering (added 2026-09-23): what makes long histories replayable on both sides
+/-- the calls that hand out a node reference -/
+def allocates : Op → Bool
+  | .createElement _ | .createText _ | .createComment _ | .createCData _ | .createPI _ _ | .createAttribute _
+  | .createEntityRef _ | .getAttributeNode _ _ | .childAt _ _ | .splitText _ _ => true
+  | _ => false
+
+theorem fresh_handles (s : St) (k : Kind) (d : Str) : (s.fresh k d).1.handles = s.handles := by
+  simp [St.fresh]
+
+/-- every call that hands out a node reference takes exactly one handle slot WHATEVER ITS OUTCOME (node, null,
+    exception, recorded panic): the numbering of handles in a history does not depend on which calls succeed, and
+    earlier handles are never renumbered -/
+theorem allocating_call_takes_one_slot (s : St) (op : Op) (h : allocates op = true) :
+    ∃ x, (Dom.step s op).1.handles = s.handles ++ [x] := by
+  cases op <;> simp [allocates] at h
+  all_goals simp only [Dom.step]
+  all_goals repeat' split
+  all_goals first
+    | exact ⟨_, rfl⟩
+    | exact ⟨_, by simp [fresh_handles]⟩
+
 end XmlRs.C13
